@@ -38,6 +38,24 @@ theorem leaksB_iff (hex b64 : Bytes → Bytes) (secret out : Bytes) :
     leaksB hex b64 secret out = true ↔ Leaks hex b64 secret out := by
   simp [leaksB, Leaks, List.any_eq_true, isInfixB_iff]
 
+/-- below this length a "secret" occurs by chance in ordinary text (a one-byte key is a letter of the placeholder):
+    the property speaks of high-entropy keys, so for shorter ones only the `AWS4`-prefixed forms are judged -/
+def minRawLength : Nat := 12
+
+/-- the forms judged by the correspondence run for a secret of any length -/
+def judgedForms (hex b64 : Bytes → Bytes) (secret : Bytes) : List Bytes :=
+  if secret.length < minRawLength then [aws4 ++ secret, hex (aws4 ++ secret), b64 (aws4 ++ secret)]
+  else forms hex b64 secret
+
+def leaksJudgedB (hex b64 : Bytes → Bytes) (secret out : Bytes) : Bool :=
+  (judgedForms hex b64 secret).any fun f => isInfixB f out
+
+/-- from 12 bytes on, what is judged is exactly `Leaks` -/
+theorem leaksJudgedB_iff (hex b64 : Bytes → Bytes) (secret out : Bytes) (h : minRawLength ≤ secret.length) :
+    leaksJudgedB hex b64 secret out = true ↔ Leaks hex b64 secret out := by
+  have : ¬ secret.length < minRawLength := Nat.not_lt.mpr h
+  simp [leaksJudgedB, judgedForms, this, Leaks, List.any_eq_true, isInfixB_iff]
+
 /-- a block cannot occur in something shorter than itself -/
 theorem not_infix_of_length_lt {n h : Bytes} (hl : h.length < n.length) : ¬ n <:+: h := fun hi =>
   Nat.not_le_of_lt hl hi.length_le
